@@ -465,6 +465,10 @@ func runC07(c *Ctx) {
 	c.rule("R7.6", "escape pairing: in every delimited scanner a backslash takes the following byte with it (that byte is never re-examined as a backslash or as the delimiter)")
 	c.floor(2)
 	ruleEscapePairing(c, lf)
+
+	c.rule("R7.7", "escape decoding keeps no state between characters: the scanners' main loops have no loop-carried values (only the cursor fields and the result buffer persist)")
+	c.floor(2)
+	ruleScannerMemoryless(c, lf)
 }
 
 func describeDanger(bad bset, D byte) string {
@@ -839,5 +843,70 @@ func ruleEscapePairing(c *Ctx, lf *lexFacts) {
 	}
 	if n == 0 {
 		c.unres("escape pairing", token.NoPos, "no delimited scanner with an escape test found")
+	}
+}
+
+// ---- R7.7: escape decoding keeps no state between characters ---------------------------------------------------------
+//
+// Each escape is decoded from the bytes of that escape alone. In SSA this is visible as the absence of loop-carried
+// values in the scanner's outermost loop: the only things that live from one iteration to the next are the lexer's
+// cursor (fields) and the result buffer (an allocation). A phi at that loop's header is state surviving from one
+// character of the literal to the next — e.g. a digit accumulator hoisted out of the escape branch and never reset.
+func ruleScannerMemoryless(c *Ctx, lf *lexFacts) {
+	seen := map[*ssa.Function]bool{}
+	n := 0
+	for _, key := range lf.order {
+		cx := lf.ctxs[key]
+		f := cx.fn
+		if seen[f] || f == lf.base || f == lf.skipper || cx.entry == nil || !cx.entry.live || resultBuilder(f) == nil {
+			continue
+		}
+		seen[f] = true
+		// loop headers: blocks with a predecessor they dominate
+		var headers []*ssa.BasicBlock
+		for _, b := range f.Blocks {
+			for _, p := range b.Preds {
+				if b.Dominates(p) {
+					headers = append(headers, b)
+					break
+				}
+			}
+		}
+		var outer *ssa.BasicBlock
+		for _, h := range headers {
+			all := true
+			for _, o := range headers {
+				if o != h && !h.Dominates(o) {
+					all = false
+				}
+			}
+			if all {
+				outer = h
+			}
+		}
+		if outer == nil {
+			continue
+		}
+		n++
+		key := fmt.Sprintf("%s: no state carried from one character of the literal to the next", f.Name())
+		var carried []string
+		for _, in := range outer.Instrs {
+			phi, ok := in.(*ssa.Phi)
+			if !ok {
+				break
+			}
+			if !allSame(phi.Edges) {
+				nm := phi.Comment
+				if nm == "" {
+					nm = phi.Name()
+				}
+				carried = append(carried, fmt.Sprintf("%s (%s)", nm, phi.Type()))
+			}
+		}
+		sort.Strings(carried)
+		c.check(len(carried) == 0, key, outer.Instrs[0].Pos(), "the scanner's main loop has no loop-carried value: only the cursor fields and the result buffer persist", fmt.Sprintf("the scanner's main loop carries %s from one iteration to the next: an escape is decoded with what an earlier escape left behind (two \\u{…} escapes in one string: the second inherits the first one's digits)", strings.Join(carried, ", ")))
+	}
+	if n == 0 {
+		c.unres("scanner loops", token.NoPos, "no delimited scanner with a loop found")
 	}
 }
